@@ -113,6 +113,7 @@ def run(ctx):
     tables.rule_T_PRED(ctx, T)
     tables.rule_T_DISJOINT(ctx, T)
     tables.rule_T_DISTINCT(ctx, T, which=("lex",))
+    tables.rule_T_JUXTAPOSE(ctx, T, models=("lex",))
     tables.rule_T_SHADOW_lex(ctx, T)
     # ---- 3. optional truth / mandatory budget, parser defaults
     ctx.rule("F-BUDGET-ALWAYS", "lexical _format_budget: every path pushes both brackets (no early return on empty)")
